@@ -7,6 +7,22 @@ use rustun_verif_harness::wire::*;
 use rustun_verif_harness::*;
 use stun_agent::{StunPacketDecodedValue, StunPacketDecoder, StunPacketErrorType};
 
+/// The caller's buffer of `b` bytes. Its LENGTH is what the decoder may use; every third buffer carries spare capacity (a
+/// pooled / truncated vector), which must make no difference (a buffer shorter than a header is refused whatever its capacity).
+fn mk_buffer(fill: u8, b: usize) -> Vec<u8> {
+    if b % 3 == 1 {
+        let mut v = Vec::with_capacity(b + 64);
+        v.resize(b, fill);
+        v
+    } else {
+        vec![fill; b]
+    }
+}
+
+fn guarded_new(fill: u8, b: usize) -> Result<StunPacketDecoder, stun_agent::StunPacketDecodedError> {
+    StunPacketDecoder::new(mk_buffer(fill, b))
+}
+
 fn run_case(out: &mut Out, b: usize, chunks: &[Vec<u8>]) {
     let mut rec = format!("C {}", b);
     for c in chunks {
@@ -16,7 +32,7 @@ fn run_case(out: &mut Out, b: usize, chunks: &[Vec<u8>]) {
     out.rec(&rec);
     let fill = (b as u8).wrapping_mul(31) | 1;
     let mut log: Vec<String> = vec![];
-    let mut dec = match StunPacketDecoder::new(vec![fill; b]) {
+    let mut dec = match guarded_new(fill, b) {
         Ok(d) => Some(d),
         Err(e) => {
             let ok = e.buffer.len() == b && e.size == 0 && e.consumed == 0 && matches!(e.error_type, StunPacketErrorType::SmallBuffer);
@@ -40,7 +56,7 @@ fn run_case(out: &mut Out, b: usize, chunks: &[Vec<u8>]) {
                         calls.push("consumed-beyond-input".into());
                         break;
                     }
-                    match StunPacketDecoder::new(vec![fill; b]) {
+                    match guarded_new(fill, b) {
                         Err(_) => {
                             calls.push("NR".into());
                             break;
@@ -131,7 +147,7 @@ fn main() {
         let npk = rng.range(1, 3) as usize;
         let mut pk: Vec<Vec<u8>> = (0..npk).map(|_| gen_packet(&mut rng, if small { 40 } else { 1000 })).collect();
         let maxlen = pk.iter().map(|p| p.len()).max().unwrap();
-        let mut bsizes = vec![maxlen, maxlen + 1, maxlen.saturating_sub(1).max(20), 20, 19, maxlen + 100];
+        let mut bsizes = vec![maxlen, maxlen + 1, maxlen.saturating_sub(1).max(20), 20, 19, maxlen + 100, 16, 1, 0];
         // fault variants of the stream
         let variant = rng.below(5);
         if variant == 1 {
